@@ -4,6 +4,7 @@ import Ruint.Lemmas.Add
 import Ruint.Gen.AddmulN
 import Ruint.Lemmas.GenCore
 import Ruint.Lemmas.GenKernels
+import Ruint.Lemmas.GenCmp
 
 /-!
 # C15 — limb-slice multiply, accumulate, add, subtract, shift, compare kernels are exact
@@ -392,5 +393,12 @@ example : submulNx1 W [0, 0] [W - 1, W - 1] (W - 1) = ([W - 1, 0], W - 1) := by 
 example : shlSmall [1 <<< 63, 1] 1 = ([0, 3], 0) ∧ shrSmall [1, 1] 1 = ([1 <<< 63, 0], 1 <<< 63) := by
   decide +kernel
 example : Limb.cmp [5] [3, 0] = .gt := by decide +kernel
+
+/-- **`algorithms::cmp` as generated from `src/algorithms/mod.rs`** (common-prefix slicing, downward loop, the `match` on
+    `i8::from(>) - i8::from(<)` with its early returns, final length comparison) equals the model for ALL pairs of slices
+    (any two lengths, any limbs); the driver runs the generated function. -/
+theorem gen_cmp_eq (l r : List ℕ) (h64 : min l.length r.length < 2 ^ 64) (f : ℕ) (hf : min l.length r.length < f) :
+    Ruint.Gen.limb_cmp f l r = Ruint.Limb.cmp l r :=
+  Ruint.GenCmp.limb_cmp_eq' l r h64 f hf
 
 end Ruint.C15
